@@ -4,7 +4,7 @@ import math
 from fractions import Fraction as Fr
 import numpy as np
 from ..tracejobs import *
-from .. import symtrace as st, common
+from .. import symtrace as st, common, histories
 from ..gen_lean import Def
 from ..runner import Corr, Failure
 
@@ -289,17 +289,17 @@ def sample(ctx, budget=1.0, hint=None, broken=None):
         if len(fails) < 40 and sum(1 for f in fails if f['signature'] == sig) < 2:
             fails.append(Failure(signature=sig, what=what, input=inp, observed=obs, expected=exp, repro=repro))
 
-    def check(obj, desc, kind, pts):
+    def check(obj, desc, kind, pts, rep0=None):
         try:
             xmin, xmax, ymin, ymax = obj.bbox()
         except Exception as e:
-            fail('%s.bbox/raises' % kind, 'bbox() raised', {'obj': desc}, repr(e), 'a box', 'svgpathtools.%s.bbox()' % desc)
+            fail('%s.bbox/raises' % kind, 'bbox() raised', {'obj': desc}, repr(e), 'a box', rep0 or 'svgpathtools.%s.bbox()' % desc)
             return
         xs, ys = pts.real, pts.imag
         size = max(xs.max() - xs.min(), ys.max() - ys.min(), 1e-300)
         scale = size + max(abs(xs).max(), abs(ys).max()) * 1e-7
         tol = 1e-9 * scale
-        rep = 'svgpathtools.%s.bbox()' % desc
+        rep = rep0 or 'svgpathtools.%s.bbox()' % desc
         if xs.min() < xmin - tol or xs.max() > xmax + tol or ys.min() < ymin - tol or ys.max() > ymax + tol:
             i = int(np.argmax(np.maximum.reduce([xmin - xs, xs - xmax, ymin - ys, ys - ymax])))
             fail('%s.bbox/containment' % kind, 'a point of the curve lies outside bbox()', {'obj': desc, 'point': repr(complex(pts[i]))},
@@ -377,10 +377,18 @@ def sample(ctx, budget=1.0, hint=None, broken=None):
             except Exception:
                 derived = ''
         desc = repr(seg) + ((' [obtained by %s]' % derived) if derived else '')
+        rep0 = None
+        if not derived:
+            # an object with a past (queries, in-place edits kept or undone, reversal, copies): see harness/histories.py
+            seg, src_, tags_ = histories.prepare(spt, r, seg, p=0.35)
+            if tags_:
+                derived = '+'.join(tags_)
+                desc = src_
+                rep0 = src_ + '.bbox()'
         n_eval += 1
         nontriv.add((kind, scale, derived))
         pts = np.array([seg.point(t) for t in ts])
-        check(seg, desc, kind.split('-')[0], pts)
+        check(seg, desc, kind.split('-')[0], pts, rep0)
         if len(samples) < 3:
             samples.append({'seg': desc})
     for it in range(int(ctx.n(40, 400) * budget)):
